@@ -524,11 +524,42 @@ var ruleSeparators = &core.Rule{ID: "R09.3", Min: 6,
 			}
 		}
 		s.OK("only '[' and '{' open containers", c.Pos(g.Pos()), "256 byte values tabulated")
-		for _, cont := range []struct {
+		type contUnit struct {
 			f      *ssa.Function
 			closer byte
 			isObj  bool
-		}{{arr, ']', false}, {obj, '}', true}} {
+			helper bool // a member helper of the object scanner: one key : value, no loop
+		}
+		conts := []contUnit{{arr, ']', false, false}, {obj, '}', true, false}}
+		// member helpers: scanners called by the object scanner that test input bytes themselves and end with a value
+		member := map[*ssa.Function]bool{}
+		for _, ci := range core.Calls(obj) {
+			h := ci.Common().StaticCallee()
+			if h == nil || !m.fam[h] || h == g || h == arr || h == obj || member[h] || h.Signature.Params().Len() < 1 || len(h.Params) < 2 {
+				continue
+			}
+			callsGuard, loads := false, false
+			for _, hc := range core.Calls(h) {
+				if hc.Common().StaticCallee() == g {
+					callsGuard = true
+				}
+			}
+			for _, b := range h.Blocks {
+				for _, in := range b.Instrs {
+					if u, ok := in.(*ssa.UnOp); ok && u.Op == token.MUL {
+						if ia, ok := u.X.(*ssa.IndexAddr); ok && ia.X == ssa.Value(h.Params[1]) {
+							loads = true
+						}
+					}
+				}
+			}
+			if !callsGuard || !loads {
+				continue
+			}
+			member[h] = true
+			conts = append(conts, contUnit{h, '}', true, true})
+		}
+		for _, cont := range conts {
 			f := cont.f
 			// byte loads of the input parameter, by dominance relative to family calls
 			type site struct {
@@ -551,9 +582,50 @@ var ruleSeparators = &core.Rule{ID: "R09.3", Min: 6,
 				return out
 			}
 			hdr := loopHeaderOf(f)
-			if hdr == nil {
+			if hdr == nil && !cont.helper {
 				s.Bad(f.Name()+": element loop", c.Pos(f.Pos()), "container scanner without a loop")
 				continue
+			}
+			if cont.helper {
+				// the helper stands for one member: every success return comes after a value, and it does not loop
+				okEnd := true
+				for _, b := range f.Blocks {
+					if !reachSelf(b) {
+						continue
+					}
+					for _, in := range b.Instrs {
+						if ci, ok := in.(ssa.CallInstruction); ok {
+							if h := ci.Common().StaticCallee(); h != nil && (m.fam[h] || m.wrap[h]) {
+								okEnd = false
+							}
+						}
+						if u, ok := in.(*ssa.UnOp); ok && u.Op == token.MUL {
+							if ia, ok := u.X.(*ssa.IndexAddr); ok && ia.X == ssa.Value(f.Params[1]) {
+								okEnd = false
+							}
+						}
+					}
+				}
+				hdr = nil
+				for _, r := range core.Returns(f) {
+					if core.IsConstInt(r.Results[0], 0) {
+						continue
+					}
+					afterValue := false
+					for _, h := range okEdgeDom(r.Block()) {
+						if h == g {
+							afterValue = true
+						}
+					}
+					if !afterValue {
+						okEnd = false
+					}
+				}
+				if !okEnd {
+					s.Und(f.Name()+": member helper ends after the value", c.Pos(f.Pos()), "a scanner called by the object scanner tests input bytes but is not of the form key : value; the grammar state it returns in is not modelled")
+					continue
+				}
+				s.OK(f.Name()+": member helper ends after the value", c.Pos(f.Pos()), "every success return is dominated by the success of the value scanner; no scanning inside a loop")
 			}
 			n := 0
 			// loads of the same input byte (same slice, same index value) are one test: the group's leader dominates the others
@@ -666,7 +738,7 @@ var ruleSeparators = &core.Rule{ID: "R09.3", Min: 6,
 					afterGuard := false
 					afterKey := false
 					for _, h := range after {
-						if h == m.guardFn {
+						if h == m.guardFn || member[h] {
 							afterGuard = true
 						} else {
 							afterKey = true
@@ -710,6 +782,9 @@ var ruleSeparators = &core.Rule{ID: "R09.3", Min: 6,
 			}
 			if pendingSplit != "" {
 				s.Bad(pendingSplit+": separator test after the closer test", c.Pos(f.Pos()), "after a value the closer is tested but the test that only ',' continues does not follow")
+			}
+			if cont.isObj && !cont.helper && len(member) > 0 {
+				continue // the tests are shared with the member helper; each is judged where it stands
 			}
 			s.Check(n >= 2, f.Name()+": byte tests found", c.Pos(f.Pos()), fmt.Sprint(n), "fewer than two structural byte tests in a container scanner")
 		}
